@@ -371,12 +371,13 @@ func CompatSource(g G, pal Palette, p Label) Label {
 
 // Builder grows scenarios.
 type Builder struct {
-	G       G
-	Pal     Palette
-	Sc      *Scenario
-	nextTok int
-	nextID  int
-	Opts    GenFuncOpts
+	G        G
+	Pal      Palette
+	Sc       *Scenario
+	nextTok  int
+	nextID   int
+	Opts     GenFuncOpts
+	maxConvs int // 0 = default (6 in Produce, 8 overall)
 }
 
 func NewBuilder(g G, pal Palette, o GenFuncOpts) *Builder {
@@ -410,7 +411,11 @@ func labelForSide(l Label, form string) Label {
 // a new converter whose own inputs are produced recursively.
 func (b *Builder) Produce(p Label, depth int, maxConvIn int) {
 	g := b.G
-	if depth <= 0 || g.Pct(30) || len(b.Sc.Convs) >= 6 {
+	limit := 6
+	if b.maxConvs > 0 {
+		limit = b.maxConvs
+	}
+	if depth <= 0 || g.Pct(30) || len(b.Sc.Convs) >= limit {
 		src := CompatSource(g, b.Pal, p)
 		if IsIface(src.Type) {
 			// inputs are concrete: a typed implementer
@@ -493,7 +498,11 @@ func (b *Builder) Distract(maxInputs, maxConvs int) {
 		b.nextTok++
 		b.Sc.Inputs = append(b.Sc.Inputs, GenInput(g, b.Pal, b.nextTok))
 	}
-	for i, n := 0, g.Int(0, maxConvs); i < n && len(b.Sc.Convs) < 8; i++ {
+	cap8 := 8
+	if b.maxConvs > cap8 {
+		cap8 = b.maxConvs
+	}
+	for i, n := 0, g.Int(0, maxConvs); i < n && len(b.Sc.Convs) < cap8; i++ {
 		o := b.Opts
 		if g.Pct(12) {
 			// a converter without outputs (a validator returning only an
@@ -868,6 +877,32 @@ func GenHostile(g G, o GenFuncOpts) *Scenario {
 		b.Produce(p, g.Int(0, 2), 2)
 	}
 	b.Distract(3, 2)
+	b.ShuffleInputs()
+	return b.Sc
+}
+
+
+// Wide pools: longer and non-ASCII identifiers, more subtypes.
+var (
+	WideNames = []string{"a", "b", "cd", "ef", "a_very_long_parameter_name_that_goes_on_and_on", "x1", "x2", "ünï", "naïve", "q", "zz9", "ab"}
+	WideSubs  = []string{"s", "t", "u", "v1", "a.b", "sub type", "ÿ", "0", "long-subtype-label-xxxxxxxxxxxxxxxxxxxxxxxx"}
+)
+
+// GenWide: the same backward-grown scenarios at larger sizes than the other
+// profiles use: up to 6 parameters per function, up to 12 converters, chains
+// up to depth 8, names and subtypes from the wide pools.
+func GenWide(g G, o GenFuncOpts) *Scenario {
+	pal := GenPalette(g, true, true)
+	pal.Names = append([]string(nil), WideNames[:g.Int(3, len(WideNames))]...)
+	pal.Subs, pal.SubP = WideSubs[:g.Int(2, len(WideSubs))], 40
+	o.MaxIn, o.MaxOut = 6, 4
+	b := NewBuilder(g, pal, o)
+	b.Sc.Target = GenTarget(g, pal, 6, o)
+	b.maxConvs = 12
+	for _, p := range b.Sc.Target.In {
+		b.Produce(p, g.Int(0, 8), 3)
+	}
+	b.Distract(4, 4)
 	b.ShuffleInputs()
 	return b.Sc
 }
